@@ -5407,6 +5407,30 @@ impl<Front: SocketHandler> ConnectionH2<Front> {
             self.flood_detector.config.max_header_fields,
             elide_x_real_ip,
         );
+        if status.is_ok() && !was_initial && self.position.is_server() {
+            // Request trailers: `pkawa::handle_trailer` drops the client
+            // attribution fields; the correlation header is listener-scoped, so
+            // a client-supplied copy is dropped here (the trailer blocks are the
+            // header blocks at the tail of the block list).
+            let name = parts.context.sozu_id_header.as_bytes();
+            let buf = parts.rbuffer.storage.buffer();
+            // skip the flags that close the trailer section, stop at anything
+            // else that is not a header (in particular the flags that end the
+            // body or the head: Sōzu's own correlation header lives in the head)
+            for (index, block) in parts.rbuffer.blocks.iter_mut().rev().enumerate() {
+                match block {
+                    kawa::Block::Flags(_) if index == 0 => {}
+                    kawa::Block::Header(header) => {
+                        if !header.is_elided()
+                            && header.key.data(buf).eq_ignore_ascii_case(name)
+                        {
+                            header.elide();
+                        }
+                    }
+                    _ => break,
+                }
+            }
+        }
         kawa.storage.clear();
         if let Err((error, global)) = status {
             match self.position {
